@@ -107,3 +107,83 @@ func Harness_C04_HostileRequests() {
 	vBystanderServed(r, b)
 	vCover("hostile-request-done")
 }
+
+// sequences of messages with reused request ids, late and duplicate answers,
+// kills and departures: the router survives and keeps serving bystanders
+func vC04Sequences(n int) {
+	r := vNewRouter(&Config{RealmConfigs: []*RealmConfig{{URI: "realm1", AnonymousAuth: true, AllowDisclose: true, EnableMetaKill: true}}})
+	a := vAttach(r, "realm1", nil, 32)
+	b := vAttach(r, "realm1", nil, 32)
+	c := vAttach(r, "realm1", nil, 32)
+	vAssert("attached", a != nil && b != nil && c != nil)
+	b.send(&wamp.Register{Request: 1, Procedure: "b.proc"})
+	b.send(&wamp.Subscribe{Request: 2, Topic: "b.topic"})
+	b.drain()
+	var lastInv wamp.ID // request id of the INVOCATION b saw last
+	bAlive := true
+	seeInv := func() {
+		if !bAlive {
+			return
+		}
+		for _, m := range b.drain() {
+			if i, ok := m.(*wamp.Invocation); ok {
+				lastInv = i.Request
+			}
+		}
+	}
+	for k := 0; k < n; k++ {
+		switch vChoice("op", 12) {
+		case 0: // the same request id again and again
+			a.send(&wamp.Call{Request: 5, Procedure: "b.proc", Arguments: wamp.List{k}})
+		case 1:
+			a.send(&wamp.Call{Request: 5, Procedure: "b.proc", Options: wamp.Dict{"progress": true}})
+		case 2:
+			a.send(&wamp.Call{Request: 5, Procedure: "b.proc", Options: wamp.Dict{"receive_progress": true, "timeout": 100}})
+		case 3:
+			a.send(&wamp.Cancel{Request: 5, Options: wamp.Dict{"mode": []string{"skip", "kill", "killnowait"}[vChoice("mode", 3)]}})
+		case 4:
+			if bAlive {
+				b.send(&wamp.Yield{Request: lastInv, Arguments: wamp.List{"r"}})
+			}
+		case 5:
+			if bAlive {
+				b.send(&wamp.Yield{Request: lastInv, Options: wamp.Dict{"progress": true}})
+			}
+		case 6:
+			if bAlive {
+				b.send(&wamp.Error{Type: wamp.INVOCATION, Request: lastInv, Error: "app.err", Details: wamp.Dict{}})
+			}
+		case 7: // everybody is killed through the meta API (a survives: it is the caller)
+			a.send(&wamp.Call{Request: 6, Procedure: wamp.MetaProcSessionKillAll})
+			bAlive = false
+			c = nil
+		case 8: // traffic aimed at whatever b holds or held
+			a.send(&wamp.Publish{Request: 7, Topic: "b.topic", Options: wamp.Dict{"acknowledge": true}})
+		case 9:
+			if bAlive {
+				b.send(&wamp.Goodbye{Reason: wamp.CloseRealm, Details: wamp.Dict{}})
+				bAlive = false
+			}
+		case 10:
+			a.send(&wamp.Call{Request: 6, Procedure: wamp.MetaProcSessionKill, Arguments: wamp.List{b.id}})
+			bAlive = false
+		case 11:
+			a.send(&wamp.Subscribe{Request: 5, Topic: "b.topic"})
+			a.send(&wamp.Unsubscribe{Request: 5, Subscription: wamp.ID(vUint64("unsub.id"))})
+		}
+		a.drain()
+		seeInv()
+	}
+	if c == nil {
+		c = vAttach(r, "realm1", nil, 32)
+		vAssert("new-session-can-attach-after-kill-all", c != nil)
+	}
+	if c != nil {
+		vBystanderServed(r, c)
+	}
+	// and the hostile session itself is still served or was dropped, never stuck
+	vCover("hostile-sequence-done")
+}
+
+func Harness_C04_HostileSequences_3() { vC04Sequences(3) }
+func Harness_C04_HostileSequences_4() { vC04Sequences(4) }
